@@ -6,7 +6,8 @@ import MsqModel.Print
   itself: its inline `match`es over optional clauses carry recursive calls; proved by 2⁸ `rfl`s).
 * `Loc`, `anyE … anyQ` — "some node of the tree satisfies a local predicate": one structural traversal of
   ALL typed query trees (every child the printer visits), parametrised by local predicates on the five
-  node classes at which the printer can fail locally (expression, SELECT, JOIN, GROUP BY, query).
+  node classes (expression, SELECT, JOIN, GROUP BY, query; the printer can fail locally at all but GROUP BY since the
+  repair 1fd5412 of `ASTGroupingSets.source`, the GROUP BY hook is kept for generality).
 * `bad_E … bad_Q` — **propagation**: if every locally flagged node makes its own printer call fail, then a
   flagged node at ANY position and depth makes the whole print fail (no text is produced).
 * `eq_E … eq_Q` — **irrelevance**: two dialects print a tree identically unless the tree contains a node
@@ -144,7 +145,8 @@ theorem prS_eq (d : Gen.D) (ws : Option (List WithTable)) (dist : Bool) (cols : 
 
 /-! ## "some node satisfies a local predicate" -/
 
-/-- local predicates on the node classes at which the printer can fail without looking at a child -/
+/-- local predicates on node classes (the printer can fail without looking at a child at an expression, SELECT, JOIN or
+query node; a GROUP BY node has had no local failure since an empty grouping set prints `()`) -/
 structure Loc where
   e : Expr → Bool := fun _ => false
   s : Select → Bool := fun _ => false
@@ -573,19 +575,14 @@ theorem bad_Js {d : Gen.D} {L : Loc} (hL : L.Refused d) : ∀ js, anyJs L js = t
     rcases hb with hb | hb <;> close_bad
 theorem bad_Sets {d : Gen.D} {L : Loc} (hL : L.Refused d) : ∀ gs, anySets L gs = true → ∀ l, prSets d gs ≠ .ok l
   | [] => by simp [anySets]
-  | [] :: r => by
-    intro hb l h
-    close_bad
-  | [x] :: r => by
-    intro hb l h; have i1 := bad_E hL x; have i2 := bad_Sets hL r
-    simp only [anySets, anyEs, Bool.or_eq_true, Bool.or_false] at hb
-    rcases hb with hb | hb <;> close_bad
-  | (x :: y :: z) :: r => by
-    intro hb l h; have i1 := bad_Es8 hL (x :: y :: z); have i2 := bad_Sets hL r
+  | g :: r => by
+    intro hb l h; have i1 := bad_Es8 hL g; have i2 := bad_Sets hL r
     simp only [anySets, Bool.or_eq_true] at hb
+    simp only [prSets, bind_eq_ok, map_eq_ok] at h
+    obtain ⟨_, ⟨p, hp, -⟩, b, hb', -⟩ := h
     rcases hb with hb | hb
-    · have := i1 hb; simp_all [prSets, bind_eq_ok, map_eq_ok, fmap_eq_ok]
-    · close_bad
+    · exact i1 hb p hp
+    · exact i2 hb b hb'
 theorem bad_G {d : Gen.D} {L : Loc} (hL : L.Refused d) : ∀ g, anyG L g = true → ∀ s, prGroupBy d g ≠ .ok s
   | .mk gc none cube rollup => by
     intro hb s h; have i1 := bad_Es8 hL gc
@@ -812,10 +809,8 @@ theorem eq_Js {d d' : Gen.D} {L : Loc} (hC : L.Covers d d') : ∀ js, anyJs L js
   | j :: r => by intro hb; have i1 := eq_J hC j; have i2 := eq_Js hC r; close_eq
 theorem eq_Sets {d d' : Gen.D} {L : Loc} (hC : L.Covers d d') : ∀ gs, anySets L gs = false → prSets d gs = prSets d' gs
   | [] => by intro _; simp [prSets]
-  | [] :: r => by intro hb; have i2 := eq_Sets hC r; close_eq
-  | [x] :: r => by intro hb; have i1 := eq_E hC x; have i2 := eq_Sets hC r; close_eq
-  | (x :: y :: z) :: r => by
-    intro hb; have i1 := eq_Es8 hC (x :: y :: z); have i2 := eq_Sets hC r
+  | g :: r => by
+    intro hb; have i1 := eq_Es8 hC g; have i2 := eq_Sets hC r
     simp only [anySets, Bool.or_eq_false_iff] at hb
     simp only [prSets, i1 hb.1, i2 hb.2]
 theorem eq_G {d d' : Gen.D} {L : Loc} (hC : L.Covers d d') : ∀ g, anyG L g = false → prGroupBy d g = prGroupBy d' g
@@ -1120,7 +1115,6 @@ structure Loc.Clean (d : Gen.D) (E : Err → Prop) (L : Loc) : Prop where
   sel : ∀ ws dist cols fr lats js wh gb hv ob sb db cb lm, L.s (.mk ws dist cols fr lats js wh gb hv ob sb db cb lm) = false →
     ws ≠ none ∧ OkOr E (prSGuard d lats sb db cb)
   join : ∀ ty t rule, L.j (.mk ty t rule) = false → OkOr E (wordsSrc Gen.joinTypes ty)
-  grp : ∀ gc sets cube rollup, L.g (.mk gc sets cube rollup) = false → ∀ l, sets = some l → [] ∉ l
   qry : ∀ ws x us, L.q (.union ws x us) = false → ws ≠ none ∧ ∀ p ∈ us, OkOr E (wordsSrc Gen.unionTypes p.1)
 
 local macro "okor" : tactic =>
@@ -1288,16 +1282,11 @@ theorem res_Js {d : Gen.D} {E : Err → Prop} {L : Loc} (hT : L.Clean d E) : ∀
     simp only [anyJs, Bool.or_eq_false_iff] at hb
     have i1 := res_J hT j hb.1; have i2 := res_Js hT r hb.2
     simp only [prJoinList]; okor
-theorem res_Sets {d : Gen.D} {E : Err → Prop} {L : Loc} (hT : L.Clean d E) : ∀ gs, [] ∉ gs → anySets L gs = false → OkOr E (prSets d gs)
-  | [], _ => fun _ => OkOr.ok _
-  | [] :: r, hne => by simp at hne
-  | [x] :: r, hne => fun hb => by
-    simp only [anySets, anyEs, Bool.or_eq_false_iff, Bool.or_false] at hb
-    have i1 := res_E hT x hb.1; have i2 := res_Sets hT r (fun h => hne (List.mem_cons_of_mem _ h)) hb.2
-    simp only [prSets]; okor
-  | (x :: y :: z) :: r, hne => fun hb => by
+theorem res_Sets {d : Gen.D} {E : Err → Prop} {L : Loc} (hT : L.Clean d E) : ∀ gs, anySets L gs = false → OkOr E (prSets d gs)
+  | [] => fun _ => OkOr.ok _
+  | g :: r => fun hb => by
     simp only [anySets, Bool.or_eq_false_iff] at hb
-    have i1 := res_Es8 hT (x :: y :: z) hb.1; have i2 := res_Sets hT r (fun h => hne (List.mem_cons_of_mem _ h)) hb.2
+    have i1 := res_Es8 hT g hb.1; have i2 := res_Sets hT r hb.2
     simp only [prSets]; okor
 theorem res_G {d : Gen.D} {E : Err → Prop} {L : Loc} (hT : L.Clean d E) : ∀ g, anyG L g = false → OkOr E (prGroupBy d g)
   | .mk gc none cube rollup => fun hb => by
@@ -1306,7 +1295,7 @@ theorem res_G {d : Gen.D} {E : Err → Prop} {L : Loc} (hT : L.Clean d E) : ∀ 
     simp only [prGroupBy]; okor
   | .mk gc (some l) cube rollup => fun hb => by
     simp only [anyG, anyOSets, Bool.or_eq_false_iff] at hb
-    have i1 := res_Es8 hT gc hb.1.2; have i2 := res_Sets hT l (hT.grp _ _ _ _ hb.1.1 l rfl) hb.2
+    have i1 := res_Es8 hT gc hb.1.2; have i2 := res_Sets hT l hb.2
     simp only [prGroupBy]; okor
 theorem res_Lat {d : Gen.D} {E : Err → Prop} {L : Loc} (hT : L.Clean d E) : ∀ l, anyLat L l = false → OkOr E (prLateral d l)
   | .mk _ fn _ _ => fun hb => by
@@ -1421,7 +1410,6 @@ theorem Loc.Clean.mono {d : Gen.D} {E E' : Err → Prop} {L : Loc} (h : ∀ e, E
   sel := fun ws dist cols fr lats js wh gb hv ob sb db cb lm hb =>
     ⟨(hT.sel ws dist cols fr lats js wh gb hv ob sb db cb lm hb).1, (hT.sel ws dist cols fr lats js wh gb hv ob sb db cb lm hb).2.mono h⟩
   join := fun ty t rule hb => (hT.join ty t rule hb).mono h
-  grp := hT.grp
   qry := fun ws x us hb => ⟨(hT.qry ws x us hb).1, fun p hp => ((hT.qry ws x us hb).2 p hp).mono h⟩
 
 theorem mapM'_res {E : Err → Prop} {α : Type} (f : α → P) : ∀ (l : List α), (∀ a ∈ l, OkOr E (f a)) → OkOr E (mapM' f l)
